@@ -102,7 +102,8 @@ _IM = {}
 
 
 def build_api(forest, use_setter):
-    """route A: the public API.  Only leaves without pass-through record and groups with st in {1,2,3}, rp = 0."""
+    """route A: the public API.  Only leaves without pass-through record and groups with st in {2,3}, rp = 0
+    (the blend mode of every group is assigned explicitly: what Group.new starts with is not C15's business)."""
     from PIL import Image
     from psd_tools import PSDImage
     from psd_tools.api.layers import Group, PixelLayer
@@ -150,6 +151,15 @@ def lid(layer):
     return int(n[1:]) if n.startswith("n") else -5
 
 
+def all_layers(group):
+    """every layer of the tree once, preorder (own walk: not the library's descendants())"""
+    for l in group._layers:
+        yield l
+        if l.is_group():
+            for x in all_layers(l):
+                yield x
+
+
 def ser_state(psd):
     out = []
 
@@ -167,7 +177,7 @@ def ser_state(psd):
 
 
 def find_layer(psd, i):
-    for l in psd.descendants(include_clip=False):
+    for l in all_layers(psd):
         if lid(l) == i:
             return l
     return None
@@ -277,7 +287,7 @@ def expected_fields(psd, pt_leaf_is_base=False):
 
 
 def observed_fields(psd):
-    return {id(l): (list(l._clip_layers), bool(l._has_clip_target)) for l in psd.descendants(include_clip=False)}
+    return {id(l): (list(l._clip_layers), bool(l._has_clip_target)) for l in all_layers(psd)}
 
 
 def same_fields(a, b):
@@ -286,8 +296,8 @@ def same_fields(a, b):
 
 
 def names(psd, fields):
-    byid = {id(l): l for l in psd.descendants(include_clip=False)}
-    return sorted((lid(byid[k]), [lid(x) for x in v[0]], v[1]) for k, v in fields.items())
+    byid = {id(l): l for l in all_layers(psd)}
+    return sorted((lid(byid[k]) if k in byid else -5, [lid(x) for x in v[0]], v[1]) for k, v in fields.items())
 
 
 def check_relation(ck, psd, inp, since, prev):
@@ -347,7 +357,7 @@ def elem_options(kind):
 
 def gen_flat(ck):
     """all flag assignments of a sibling list (children are leaves; pass-through via the record)"""
-    n_max = 6 if ck.tier == "thorough" else 5
+    n_max = 7 if ck.tier == "thorough" else 6
     for n in range(0, n_max + 1):
         for combo in itertools.product(elem_options("L"), repeat=n):
             yield list(combo)
@@ -368,7 +378,7 @@ def gen_nested(ck):
             return ("N", c, 0, p, list(ch))
         return ("N", c, 1, p, list(ch))
 
-    for n in range(1, 4 if thorough else 3):
+    for n in range(1, 5 if thorough else 4):
         for pos in range(n):
             for combo in itertools.product([(0, 0), (1, 0), (0, 1), (1, 1)], repeat=n):
                 for enc in ("ABC" if thorough else "AB"):
@@ -390,7 +400,7 @@ def gen_nested(ck):
                 out.append(("L", c, int(rng.random() < 0.2)))
         return out
 
-    for _ in range(4000 if thorough else 500):
+    for _ in range(40000 if thorough else 4000):
         yield rnd(0)
 
 
@@ -404,7 +414,7 @@ def gen_api(ck):
         for _ in range(n - 1):
             c = int(rng.random() < 0.5)
             if depth < 4 and rng.random() < 0.35:
-                out.append(("N", c, rng.choice([1, 2, 2, 3]), 0, rnd(depth + 1)))
+                out.append(("N", c, rng.choice([2, 3]), 0, rnd(depth + 1)))
             else:
                 out.append(("L", c, 0))
         rng.shuffle(out)
@@ -413,7 +423,7 @@ def gen_api(ck):
     for combo_n in range(1, 5):
         for combo in itertools.product([0, 1], repeat=combo_n):
             yield [("L", c, 0) for c in combo]
-    for _ in range(1500 if ck.tier == "thorough" else 250):
+    for _ in range(12000 if ck.tier == "thorough" else 1500):
         yield rnd(0)
 
 
